@@ -141,6 +141,122 @@ deliver_model(World &W, int from, int except, uint32_t tag)
 		vr_tag("fanout2");
 }
 
+// ------------------------------------------------------------ reflector world: a raw BUS socket run by nng_device
+// Three cooked BUS nodes dial a raw BUS hub whose only job is nng_device(hub, none): whatever one node sends must reach
+// the other nodes in the sender's order, intact, at most once, and never the sender itself.
+static void
+refl_cb(void *arg)
+{
+	(*(int *) arg)++;
+}
+
+int
+exec_reflector(const vcase *vc, const h_cfg &cfg0, int sb)
+{
+	h_cfg cfg        = cfg0;
+	cfg.task_threads = 4; // forwarding is done by completion callbacks: give them room to overlap
+	if (h_begin(&cfg) != 0)
+		return 0;
+	vr_tag("reflector_device");
+	nng_socket hub, node[3];
+	nng_aio   *daio;
+	int        ddone = 0;
+	H_OK(nng_bus0_open_raw(&hub));
+	H_OK(nng_socket_set_int(hub, NNG_OPT_SENDBUF, sb));
+	H_OK(nng_listen(hub, "inproc://c09-hub", NULL, 0));
+	for (int i = 0; i < 3; i++) {
+		H_OK(nng_bus0_open(&node[i]));
+		H_OK(nng_socket_set_int(node[i], NNG_OPT_SENDBUF, sb));
+	}
+	H_OK(nng_aio_alloc(&daio, refl_cb, &ddone));
+	nng_socket none = NNG_SOCKET_INITIALIZER;
+	nng_device_aio(daio, hub, none);
+	vs_settle();
+	bool     up[3] = {false, false, false};
+	uint32_t seq[3] = {0, 0, 0};
+	std::map<std::pair<int, int>, uint32_t> last; // (receiver, sender) -> last tag seen
+	std::set<std::pair<int, uint32_t>>      seen; // (receiver, tag)
+	long delivered = 0, sent = 0;
+	bool relinked = false;
+	auto drain = [&](int k) {
+		for (;;) {
+			nng_msg *m  = nullptr;
+			int      rv = nng_recvmsg(node[k], &m, NNG_FLAG_NONBLOCK);
+			VR_CHECK(rv == 0 || rv == NNG_EAGAIN, "C09:recv-code", "node %d non-blocking receive -> %d", k, rv);
+			if (rv != 0)
+				return;
+			uint32_t tag;
+			VR_CHECK(h_msg_tag(m, &tag) == 0, "C09:corrupt-message", "node %d received a corrupted message through the device (len %zu)", k, nng_msg_len(m));
+			VR_CHECK(nng_msg_header_len(m) == 0, "C09:cooked-header", "cooked node %d: message carries a %zu-byte header", k, nng_msg_header_len(m));
+			nng_msg_free(m);
+			int from = (int) (tag >> 24);
+			VR_CHECK(from >= 0 && from < 3, "C09:corrupt-message", "bad tag %x", tag);
+			VR_CHECK(from != k, "C09:echo", "node %d received its own message %x back from the reflector device", k, tag);
+			VR_CHECK(seen.insert({k, tag}).second, "C09:duplicate-delivery", "node %d received %x twice through the device", k, tag);
+			auto key = std::make_pair(k, from);
+			if (last.count(key))
+				VR_CHECK(tag > last[key], "C09:reordered", "node %d received %x from node %d after %x: the device reordered one peer's messages", k, tag, from, last[key]);
+			last[key] = tag;
+			delivered++;
+			vs_settle();
+		}
+	};
+	for (int i = 2; i < vc->nops; i++) {
+		const vop  *o = &vc->ops[i];
+		std::string n = o->name;
+		vr_at(i, o->name);
+		int a = (int) vop_arg(o, 0, 0) % 3, b = (int) vop_arg(o, 1, 0);
+		if (a < 0)
+			continue;
+		if (n == "link") {
+			if (up[a])
+				continue;
+			if (nng_dial(node[a], "inproc://c09-hub", NULL, 0) == 0)
+				up[a] = true;
+			vs_settle();
+		} else if (n == "send" || n == "burst" || n == "bigsend") {
+			int cnt = n == "send" ? 1 : (b > 0 && b <= 60 ? b : 3);
+			for (int j = 0; j < cnt; j++) {
+				uint32_t tag = ((uint32_t) a << 24) | ++seq[a];
+				nng_msg *m   = h_msg(tag, (size_t) (j & 15));
+				int      rv  = nng_sendmsg(node[a], m, NNG_FLAG_NONBLOCK);
+				VR_CHECK(rv == 0, "C09:send-blocked", "BUS non-blocking send -> %d", rv);
+				sent++;
+				if (n == "send")
+					vs_settle();
+			}
+			vs_settle();
+			if (cnt > 1)
+				vr_tag("burst_through_device");
+		} else if (n == "recv") {
+			drain(a);
+		} else if (n == "wait") {
+			vs_sleep(b > 0 ? b : 1);
+			vs_settle();
+		}
+	}
+	for (int round = 0; round < 50; round++) {
+		long before = delivered;
+		for (int k = 0; k < 3; k++)
+			drain(k);
+		vs_settle();
+		if (delivered == before)
+			break;
+	}
+	(void) relinked;
+	if (delivered >= 2)
+		vr_tag("reflected");
+	VR_CHECK(ddone == 0, "C09:device-ended", "the reflector device ended by itself (%d)", nng_aio_result(daio));
+	nng_aio_cancel(daio);
+	nng_aio_wait(daio);
+	nng_aio_free(daio);
+	for (int i = 0; i < 3; i++)
+		nng_socket_close(node[i]);
+	nng_socket_close(hub);
+	h_end();
+	return 0;
+}
+
 int
 exec_c09(const vcase *vc)
 {
@@ -149,6 +265,10 @@ exec_c09(const vcase *vc)
 	if (vc->nops < 2 || strcmp(vc->ops[0].name, "cfg") != 0 || strcmp(vc->ops[1].name, "world") != 0)
 		return 0;
 	h_cfg_from_op(&cfg, &vc->ops[0]);
+	if (vop_arg(&vc->ops[1], 0, 0) == 2) {
+		int sbr = (int) vop_arg(&vc->ops[1], 1, 16);
+		return exec_reflector(vc, cfg, sbr < 1 || sbr > 64 ? 16 : sbr);
+	}
 	bool raw0 = vop_arg(&vc->ops[1], 0, 0) != 0;
 	int  sb   = (int) vop_arg(&vc->ops[1], 1, 16);
 	if (sb < 1 || sb > 64)
@@ -393,9 +513,31 @@ std::string
 gen_c09()
 {
 	std::ostringstream t;
-	int mode = *pbt::welem<int>({{3, 0}, {2, 1}, {2, 2}});
-	t << "cfg " << *pbt::range<int>(1, 1000000) << " " << mode << " " << *gen::element(10, 30, 60) << " " << *pbt::range<int>(1, 3) << " 600 0\n";
-	t << "world " << *pbt::welem<int>({{2, 0}, {1, 1}}) << " " << *gen::element(1, 2, 4, 16) << "\n";
+	int mode = *pbt::welem<int>({{3, 0}, {2, 1}, {2, 2}, {2, 3}});
+	t << "cfg " << *pbt::range<int>(1, 1000000) << " " << mode << " " << (mode == 3 ? *gen::element(5, 20, 50) : *gen::element(10, 30, 60)) << " " << *pbt::range<int>(1, 3) << " " << (mode == 3 ? *gen::element(60, 150, 400) : 600) << " 0\n";
+	int world = *pbt::welem<int>({{4, 0}, {2, 1}, {1, 2}});
+	t << "world " << world << " " << *gen::element(1, 2, 4, 16) << "\n";
+	if (world == 2) {
+		// reflector device: nodes link to the hub, then traffic
+		t << "link 0\nlink 1\n";
+		if (*pbt::range<int>(0, 1))
+			t << "link 2\n";
+		auto rops = *gen::container<std::vector<std::string>>(gen::exec([]() {
+			std::ostringstream o;
+			int a = *pbt::range<int>(0, 2);
+			switch (*pbt::welem<int>({{4, 0}, {5, 1}, {4, 2}, {1, 3}, {1, 4}})) {
+			case 0: o << "send " << a; break;
+			case 1: o << "burst " << a << " " << *gen::element(2, 3, 5, 9, 20, 40); break;
+			case 2: o << "recv " << a; break;
+			case 3: o << "link " << a; break;
+			default: o << "wait 0 " << *gen::element(1, 5, 20); break;
+			}
+			return o.str();
+		}));
+		for (auto &l : rops)
+			t << l << "\n";
+		return t.str();
+	}
 	// usually start with a connected mesh
 	int shape = *pbt::range<int>(0, 4);
 	static const char *shapes[] = {"", "link 1 0\nlink 2 0\n", "link 1 0\nlink 2 1\nlink 3 2\n", "link 1 0\nlink 2 0\nlink 3 0\nlink 2 1\n", "link 0 1\nlink 0 2\nlink 0 3\nlink 1 2\nlink 1 3\nlink 2 3\n"};
@@ -423,7 +565,7 @@ main(int argc, char **argv)
 	          "in-order-subsequence oracle for bursts. Non-trivial = >= 3 nodes linked and a message with >= 2 recipients, or a raw forward, "
 	          "or an overflowing burst; distinct by case hash";
 	sp.nontrivial = [](const std::set<std::string> &t) {
-		return (t.count("mesh3") && t.count("fanout2")) || t.count("raw_forward") || t.count("burst_overflow") || t.count("stalled_queue_full");
+		return (t.count("mesh3") && t.count("fanout2")) || t.count("raw_forward") || t.count("burst_overflow") || t.count("stalled_queue_full") || (t.count("reflected") && t.count("burst_through_device"));
 	};
 	return pbt::pbt_main(argc, argv, sp);
 }
